@@ -39,7 +39,7 @@ var actorNames = []string{"ann", "bob", "cy", "dee"}
 func genPlay(rng *rand.Rand, i int) *play {
 	p := &play{Index: i}
 	feat := func(s string) { p.Features = append(p.Features, s) }
-	if rng.Intn(10) == 0 {
+	if i == 2 || rng.Intn(10) == 0 {
 		// regression play for 27a1a66: a spotlight fails while the prompter
 		// keeps sending mood and act changes to the audition
 		feat("failing-spotlight-during-mood-changes")
@@ -51,6 +51,24 @@ func genPlay(rng *rand.Rand, i int) *play {
 			sb.WriteString(strings.Repeat("rb", 30+rng.Intn(40)) + " ")
 		}
 		sb.WriteString("\nend\n")
+		p.Cfg = sb.String()
+		return p
+	}
+	if i == 1 || rng.Intn(8) == 0 {
+		// many quick repetitions of an empty act while every actor's
+		// spotlight streams samples of a watched delta signal: whatever the
+		// prompter does when it repeats runs beside the spotlight readers
+		feat("repeat-storm-with-delta-signals")
+		var sb strings.Builder
+		sb.WriteString("role road\n  :go true\n  spotlight while true; do echo \"odo $RANDOM\"; sleep 0.002; done\n")
+		sb.WriteString("  signal odo delta at (?P<ts_now>)^odo (?P<delta>\\d+)$\nend\ncast\n")
+		n := 2 + rng.Intn(3)
+		for k := 0; k < n; k++ {
+			fmt.Fprintf(&sb, "  %s plays road\n", actorNames[k])
+		}
+		sb.WriteString("end\naudience\n  odometer watches every road odo\nend\n")
+		fmt.Fprintf(&sb, "script\n  tempo %dms\n  scene g entails for %s: go\n", 2+rng.Intn(4), actorNames[0])
+		fmt.Fprintf(&sb, "  storyline g%s .\n  repeat from ^\\.$\n  repeat %d times\nend\n", strings.Repeat(".", 20+rng.Intn(20)), 40+rng.Intn(60))
 		p.Cfg = sb.String()
 		return p
 	}
@@ -81,6 +99,9 @@ func genPlay(rng *rand.Rand, i int) *play {
 	}
 	sb.WriteString("  signal ride event at (?P<ts_now>)(?P<event>car rides)\n")
 	sb.WriteString("  signal speed scalar at (?P<ts_now>)^speed (?P<scalar>\\d+)$\n")
+	// a second signal on the same lines, declared after `speed` although its
+	// name sorts first: one line yields one event with two values
+	sb.WriteString("  signal kmh scalar at (?P<ts_now>)^speed (?P<scalar>\\d+)$\n")
 	sb.WriteString("  signal odo delta at (?P<ts_now>)^odo (?P<delta>\\d+)$\n")
 	sb.WriteString("end\n")
 	sb.WriteString("role quiet\n  :nop true\nend\n")
@@ -96,7 +117,7 @@ func genPlay(rng *rand.Rand, i int) *play {
 	sb.WriteString("audience\n")
 	first := actorNames[0]
 	last := actorNames[nActors-1]
-	sb.WriteString("  watcher watches every road ride\n  watcher watches every road speed\n")
+	sb.WriteString("  watcher watches every road ride\n  watcher watches every road speed\n  watcher watches every road kmh\n")
 	fmt.Fprintf(&sb, "  odometer watches %s odo\n", last)
 	fmt.Fprintf(&sb, "  judge computes twice as [%s speed] * 2\n", first)
 	fmt.Fprintf(&sb, "  judge collects recent as last 3 [%s speed]\n", first)
